@@ -125,10 +125,12 @@ kind_to_target = dict(
 )
 
 constant_to_target = dict(
-    smallest="std::numeric_limits<{type}>::min()",
-    largest="std::numeric_limits<{type}>::max()",
-    posinf="std::numeric_limits<{type}>::infinity()",
-    neginf="-std::numeric_limits<{type}>::infinity()",
+    # std::numeric_limits is not specialised for std::complex: its members
+    # silently return std::complex(0, 0)
+    smallest="std::numeric_limits<{real_type}>::min()",
+    largest="std::numeric_limits<{real_type}>::max()",
+    posinf="std::numeric_limits<{real_type}>::infinity()",
+    neginf="-std::numeric_limits<{real_type}>::infinity()",
     pi="M_PI",
     nan="NAN",
 )
